@@ -206,3 +206,17 @@ func FeatList(m map[string]bool) []string {
 	sort.Strings(l)
 	return l
 }
+
+// numOf reads a number of a driver answer (decoded with UseNumber)
+func numOf(v interface{}) float64 {
+	switch x := v.(type) {
+	case json.Number:
+		f, _ := x.Float64()
+		return f
+	case float64:
+		return x
+	case int:
+		return float64(x)
+	}
+	return 0
+}
